@@ -112,6 +112,14 @@ func runC36(c *core.Ctx) {
 				if bt, ok := x.Type().Underlying().(*types.Basic); ok && bt.Info()&types.IsFloat != 0 && (x.Op == token.MUL || x.Op == token.QUO) {
 					bad = "floating-point " + x.Op.String() + " at " + c.P.Pos(x.Pos())
 				}
+				// ... and no machine-integer product of two runtime values (it wraps modulo 2^64)
+				if bt, ok := x.Type().Underlying().(*types.Basic); ok && bt.Info()&types.IsInteger != 0 && x.Op == token.MUL {
+					_, cx := x.X.(*ssa.Const)
+					_, cy := x.Y.(*ssa.Const)
+					if !cx && !cy {
+						bad = "machine-integer product " + core.ExprKey(x) + " at " + c.P.Pos(x.Pos())
+					}
+				}
 			}
 		})
 		c.Check(bad == "", "C36/exact-helper-stays-in-integers", "GetIntTrimmedPercentageOfValue", fn.Pos(),
